@@ -7,7 +7,7 @@ from .. import sym
 from ..evalfn import SELF
 from ..source import AnalysisError
 from ..sym import canon
-from .common import working_for, ALGOS, BACKTEST, CORE, G, Roles, dominates, fld, guard_subset, has_lit, plain, short
+from .common import working_for, ALGOS, BACKTEST, CORE, G, Roles, dominates, fld, guard_subset, has_lit, lits, plain, short
 from .core_rules import bound_args, equal
 
 ADJUST_SITES = {
@@ -159,6 +159,10 @@ def run_loop(chk, pid):
         ok = bool(rets) and bool(hr) and all(rets[0].seq < e.seq for e in calls) and canon(hr[0].value) == canon(sym.TRUE) and hr[0].seq < setup[0].seq
         chk.ob("C11.R4", ok, BACKTEST, host, "has-run-gate", "a finished backtest asked to run again returns at once; the flag is set before anything runs", where=fi.where,
                expected="if self.has_run: return; self.has_run = True; ... setup", found="%d early returns, %d flag writes" % (len(rets), len(hr)))
+        # ... and stays set: nothing the run goes through (its own helpers included) turns it off again
+        off = [w for w in hr if canon(w.value) != canon(sym.TRUE)]
+        chk.ob("C11.R4", not off, BACKTEST, host, "has-run-stays-set", "a backtest that has run keeps its run flag set (no helper on the way resets it), so that asking again does not re-run it",
+               where=off[0].where if off else fi.where, expected="only `self.has_run = True` inside run()", found="; ".join(short(w.value, 40) for w in off)[:200])
         sb = bound_args(setup[0], chk.prog)
         ok = setup[0].args and setup[0].args[0][0] == "fld" and setup[0].args[0][2] == "data" and canon(setup[0].args[0][1]) == canon(SELF)
         chk.ob("C11.R1", ok, BACKTEST, host, "setup-with-framed-data", "the strategy is set up with the backtest's own framed copy of the data", where=setup[0].where)
